@@ -1,12 +1,13 @@
 (* C17 / C18: Value's own Serialize / Deserialize and the serde_json bridge.
-   The four dependency functions of Model/SerdeValue.v (lossy, fmt_lex, sj_parse, fmt_ryu)
-   are instantiated, per case, by the ORACLE tokens of the case line: what json-number /
-   serde_json answered for exactly the calls this input causes.  A call that the line does
-   not record is a BADCASE (the harness and the model disagree on which calls are made).
+   The two printing dependencies of Model/SerdeValue.v (fmt_lex, fmt_ryu) are instantiated,
+   per case, by the ORACLE tokens of the case line: what json-number / serde_json answered
+   for exactly the calls this input causes.  A call that the line does not record is a
+   BADCASE (the harness and the model disagree on which calls are made).  Decimal -> double
+   conversions are the model's own correctly rounded reference (Spec/NumSpelling.dbl).
    Model column: the model's observable.  Spec column: what the property demands -- for the
    relational demands (same structure, same integer or double, up to entry order) the model's
    own line when Spec.SerdeRoundTrip accepts it, `WANT ...` otherwise -- followed by
-   ` !Kn` for every known class (Spec.SerdeRoundTrip.K1..K6) the input belongs to. *)
+   ` !Kn` for every known class (Spec.SerdeRoundTrip.K3, K4) the input belongs to. *)
 open Model
 open Glue
 
@@ -36,9 +37,7 @@ let dec_of_z (x : z) : str =
   if Z.ltb x Z0 then "-" ^ dec_of_n (Z.abs_N x) else dec_of_n (Z.abs_N x)
 
 type oracle = {
-  l : (str, spec_float) Hashtbl.t;
   w : (str, n list) Hashtbl.t;
-  p : (str, spec_float option) Hashtbl.t;
   r : (str, n list) Hashtbl.t;
 }
 
@@ -49,15 +48,13 @@ let split3 (t : str) : str * str * str =
 
 (* tokens up to "|" are oracle entries *)
 let read_oracle (toks : str list) : oracle * str list =
-  let o = { l = Hashtbl.create 8; w = Hashtbl.create 8; p = Hashtbl.create 8; r = Hashtbl.create 8 } in
+  let o = { w = Hashtbl.create 8; r = Hashtbl.create 8 } in
   let rec go = function
     | "|" :: rest -> rest
     | t :: rest ->
       let (k, a, b) = split3 t in
       (match k with
-       | "L" -> Hashtbl.replace o.l a (sf_of_hex b)
        | "W" -> Hashtbl.replace o.w a (cps_of_tok b)
-       | "P" -> Hashtbl.replace o.p a (if b = "E" then None else Some (sf_of_hex b))
        | "R" -> Hashtbl.replace o.r a (cps_of_tok b)
        | _ -> raise (Bad_case "oracle kind"));
       go rest
@@ -67,9 +64,7 @@ let read_oracle (toks : str list) : oracle * str list =
   (o, rest)
 
 let find tbl key what = match Hashtbl.find_opt tbl key with Some x -> x | None -> raise (Bad_case ("oracle lacks " ^ what ^ " " ^ key))
-let lossy o (n : n list) = find o.l (tok_of_cps n) "L"
 let fmt_lex o (x : spec_float) = find o.w (hex_of_sf x) "W"
-let sj_parse o (n : n list) = find o.p (tok_of_cps n) "P"
 let fmt_ryu o (x : spec_float) = find o.r (hex_of_sf x) "R"
 
 (* ---- serde_json values ---- *)
@@ -136,18 +131,22 @@ let c17 toks =
       | Panic _ -> "PANIC"
       | OutOfFuel -> "FUEL" in
     let o = match v with VObj _ -> " o=1" | _ -> "" in
-    (m ^ o, "OK " ^ value_str (ser_spec v) ^ o ^ flags ["K1", k1 v; "K4", k4 v])
+    (m ^ o, "OK " ^ value_str (ser_spec v) ^ o ^ flags ["K4", k4 v])
   | op :: rest when op = "de" || op = "txt" ->
     let (o, vt) = read_oracle rest in
     let (v, _) = dec_value vt in
-    let res = if op = "de" then from_value (lossy o) (fmt_lex o) v else from_text (fmt_lex o) (sj_parse o) v in
+    let res = if op = "de" then from_value (fmt_lex o) v else from_text (fmt_lex o) v in
     let (m, ok) = match res with
       | Ok w -> ("OK " ^ value_str w, de_ok v w)
       | Err _ -> ("ERR", false)
       | Panic _ -> ("PANIC", false)
       | OutOfFuel -> ("FUEL", false) in
-    let fl = if op = "de" then flags ["K2", k2 v; "K3", k3 v; "K4", k4 v] else flags ["K4", k4 v; "K5", k5 v] in
-    (m, (if ok then m else "WANT " ^ value_str (collapse v)) ^ fl)
+    if op = "txt" && k3 v then
+      (* the front end refuses a number beyond the doubles: outside what the property speaks about *)
+      (m, m ^ flags ["K4", k4 v])
+    else
+      let fl = if op = "de" then flags ["K3", k3 v; "K4", k4 v] else flags ["K4", k4 v] in
+      (m, (if ok then m else "WANT " ^ value_str (collapse v)) ^ fl)
   | _ -> raise (Bad_case "c17")
 
 let c18 toks =
@@ -159,22 +158,20 @@ let c18 toks =
     (match from_sj (fmt_ryu o) j with
      | Ok v ->
        let vs = value_str v in
-       let back = match into_sj (lossy o) (sj_parse o) v with Ok j' -> j_str j' | _ -> "PANIC" in
-       (Printf.sprintf "v=%s back=%s" vs back,
-        Printf.sprintf "v=%s back=%s" vs (j_str j) ^ flags ["K6", k6 (fmt_ryu o) j])
-     | _ -> ("PANIC", "NOPANIC" ^ flags ["K6", k6 (fmt_ryu o) j]))
+       let back = match into_sj v with Ok j' -> j_str j' | _ -> "PANIC" in
+       (Printf.sprintf "v=%s back=%s" vs back, Printf.sprintf "v=%s back=%s" vs (j_str j))
+     | _ -> ("PANIC", "NOPANIC"))
   | "is" :: rest ->
     let (o, vt) = read_oracle rest in
     let (v, _) = dec_value vt in
-    let fl = flags ["K3", k3 v; "K5", k5 v] in
-    let indomain = wf_nums v && nodup_keysb v && nums64 v in
-    (match into_sj (lossy o) (sj_parse o) v with
+    let indomain = nodup_keysb v && nums64 v in
+    (match into_sj v with
      | Ok j ->
        let js = j_str j in
        (match from_sj (fmt_ryu o) j with
         | Ok w ->
           let m = Printf.sprintf "j=%s v=%s" js (value_str w) in
-          (m, (if (not indomain) || detour_ok v w then m else "WANT " ^ value_str v) ^ fl)
-        | _ -> (Printf.sprintf "j=%s v=PANIC" js, "NOPANIC" ^ fl))
-     | _ -> ("PANIC", "NOPANIC" ^ fl))
+          (m, if (not indomain) || detour_ok v w then m else "WANT " ^ value_str v)
+        | _ -> (Printf.sprintf "j=%s v=PANIC" js, "NOPANIC"))
+     | _ -> ("PANIC", "NOPANIC"))
   | _ -> raise (Bad_case "c18")
